@@ -177,9 +177,11 @@ func (f *Fosite) DefaultClientAuthenticationStrategy(ctx context.Context, r *htt
 		if err != nil {
 			return nil, errorsx.WithStack(err)
 		}
-		if expiry < time.Now().Unix() {
+		if time.Unix(expiry, 0).Before(time.Now()) {
 			// An "exp" of zero passes token.Claims.Valid() (it is treated like an absent claim there), but a
-			// client assertion must carry an expiry that lies in the future.
+			// client assertion must carry an expiry that lies in the future. The comparison is made on the
+			// instant, not on whole seconds: the JTI is only remembered until that instant, so an assertion
+			// that is still honoured during the remainder of its last second could be replayed then.
 			return nil, errorsx.WithStack(ErrInvalidClient.WithHint("Claim 'exp' from 'client_assertion' must be set to a time in the future."))
 		}
 		if err := f.Store.SetClientAssertionJWT(ctx, jti, time.Unix(expiry, 0)); err != nil {
